@@ -3,7 +3,7 @@
 //! carries an id and logs its `Drop`, and callbacks (predicates, closures, `Clone`, `Drop`) that follow
 //! a generated ORACLE (return values and panics), next to `std::vec::Vec` executing the same sequence.
 //!
-//!   coll <traces> <ops-per-trace> <profile>       env: VERIF_SEED      profiles: general drops std split
+//!   coll <traces> <ops-per-trace> <profile>       env: VERIF_SEED      profiles: general drops std deep split failing
 //!
 //! Output (line protocol of `lean/Driver/CollD.lean`):
 //!   `# trace <n> …`                         start of a trace
@@ -40,6 +40,8 @@ include!("../coll_inc/ops.rs");
 include!("../coll_inc/exec.rs");
 include!("../coll_inc/split.rs");
 include!("../coll_inc/mapvec.rs");
+include!("../coll_inc/failing.rs");
+include!("../coll_inc/misc.rs");
 
 fn main() {
     let args: Vec<String> = std::env::args().collect();
@@ -50,6 +52,9 @@ fn main() {
         // callback / bomb panics are part of the experiment; anything else is reported on stderr
         let p = info.payload();
         if p.is::<CbPanic>() || p.is::<BombPanic>() {
+            if std::env::var("VERIF_COLL_TRACE_CB").is_ok() {
+                eprintln!("cb/bomb panic at:\n{}", std::backtrace::Backtrace::force_capture());
+            }
             return;
         }
         if std::env::var("VERIF_COLL_VERBOSE").is_ok() {
@@ -58,9 +63,16 @@ fn main() {
     }));
     let mut ctx = Ctx::new(Rng::new(seed()), &profile);
     println!("# coll engine seed={} traces={traces} ops={nops} profile={profile}", seed());
+    if profile == "failing" {
+        run_failing_profile(&mut ctx, traces);
+        ctx.summary();
+        print!("{}", ctx.out);
+        return;
+    }
     if profile == "split" {
         run_split_profile(&mut ctx, traces);
         run_mapvec(&mut ctx);
+        run_misc(&mut ctx);
         ctx.summary();
         print!("{}", ctx.out);
         return;
